@@ -747,6 +747,15 @@ def gen(rng, tier, mult=1):
                      ("mac", MAC_MALFORMED + MAC_BOUNDARY)]:
         for s in lst:
             yield from all_calls(rng, fam, s, "listed", full_mac=(fam == "mac" and s in MAC_BOUNDARY))
+    # every boundary prefix length, in several spellings, on fixed addresses (deterministic: every seed)
+    v6m = [0, 1, 2, 7, 8, 9, 15, 16, 17, 31, 32, 33, 63, 64, 65, 95, 96, 97, 119, 120, 127, 128]
+    for fam, bases, masks in (("v4", ["10.1.2.3", "0.0.0.0"], list(range(33))),
+                              ("v6", ["2001:db8::1", "::"], v6m),
+                              ("ip", ["::ffff:10.1.2.3", "2001:db8::1", "10.1.2.3"], [0, 1, 8, 24, 31, 32, 96, 120, 128])):
+        for b in bases:
+            for m in masks:
+                for txt in ([str(m)] if m not in (0, 32, 128) else [str(m), "0" + str(m), "00" + str(m)]):
+                    yield from all_calls(rng, fam, b + "/" + txt, "mask-grid")
     per = {"v4": 90, "v6": 140, "ip": 120, "mac": 90}
     for fam in ("v4", "v6", "ip", "mac"):
         for s, style in gen_strings(rng, fam, per[fam] * scale):
